@@ -24,6 +24,8 @@ func verifYield(int) {}
 
 func verifObserveSendRPC(peer.ID, *RPC) {}
 
+func verifObservePush(*rpcQueue, *RPC, error) {}
+
 func verifYieldQueue(*rpcQueue, int) {}
 
 func verifYieldMsg(*Message, int) {}
